@@ -386,7 +386,7 @@ def _mem_menu(quick):
 
 STR_VALS = [("'a'", 'a'), ("'b c'", 'b c'), ("'it\\'s \"q\" $x$ \\\\ \\n'",
                                               'it\'s "q" $x$ \\ \n'),
-            ("''", ''), ("'é‮'", 'é‮')]
+            ("''", ''), ("'é\\u202e'", 'é‮')]
 
 
 def _schema_info(name):
@@ -437,7 +437,9 @@ def setting_menu(name, quick):
                  ("{'b', 'a', 'b'}", ('set', (('str', 'a'), ('str', 'b')))),
                  ("'solo'", ('set', (('str', 'solo'),))),
                  ("{'it\\'s', '$$'}",
-                  ('set', (('str', '$$'), ('str', "it's"))))]
+                  # (elements in the order canon() sorts them: by repr)
+                  ('set', tuple(sorted((('str', '$$'), ('str', "it's")),
+                                       key=repr))))]
         invalid = [('{1, 2}', 'wrong element type', True),
                    ('true', 'wrong type', True)]
     elif isinstance(t, type) and issubclass(t, bool):
